@@ -57,10 +57,14 @@ type Env struct {
 	End   string
 	execN int
 	Verbose bool
+	Mute    bool // oracles of borrowed scenario families are silent (C12 judges only the race detector)
 }
 
 //go:norace
 func (e *Env) Violate(clause, class, format string, args ...interface{}) {
+	if e.Mute {
+		return
+	}
 	v := Violation{Prop: e.Prop, Clause: clause, Class: class, Detail: fmt.Sprintf(format, args...)}
 	for _, x := range e.Viol {
 		if x.Sig() == v.Sig() {
